@@ -962,6 +962,8 @@ def check_C50(ctx):
             n_deny += 1
         if x["kind"] == "access":
             classes.add((x["site"], x["cont"], x["mod"], x["mkind"], x["op"], x["via"] in ("self", "o", "oo", "name")))
+        elif x["kind"] == "inh":
+            classes.add(("inherited", x["where"], x["mod"], x["mkind"], x["site"]))
         if v["accept"] == x["permitted"]:
             continue
         sig = {k: x[k] for k in x if k not in ("id",)}
